@@ -171,6 +171,20 @@ fn run_binops(cx: &mut CaseCx, case: &Value) {
     cmp(cx, "[a,b,-(a+b)].sum()", "iter/sum-cancels", &[ra, rb, nsum].into_iter().sum::<Fp>(), &BigUint::zero(), d);
     cmp(cx, "[a,-a].sum()", "iter/sum-cancels", &[ra, -ra].into_iter().sum::<Fp>(), &BigUint::zero(), d);
     cmp(cx, "[a,b,a].sum()", "iter/sum3", &[ra, rb, ra].into_iter().sum::<Fp>(), &rm::addm(&msum, a), d);
+    // ... and one more operation on top of a three-term sum (a sum that is right in value but not fully
+    // reduced internally shows only in the next negation / subtraction / raw conversion)
+    {
+      let s3: Fp = [ra, rb, ra].into_iter().sum();
+      let m3 = rm::addm(&msum, a);
+      cmp(cx, "-[a,b,a].sum()", "iter/neg-sum3", &(-s3), &rm::negm(&m3), d);
+      cmp(cx, "b-[a,b,a].sum()", "iter/sub-sum3", &(rb - s3), &rm::subm(b, &m3), d);
+      cmp(cx, "[a,b,a].sum().double()", "iter/double-sum3", &s3.double(), &rm::addm(&m3, &m3), d);
+      let s5: Fp = [ra, rb, ra, rb, rb].iter().sum();
+      let m5 = rm::addm(&rm::addm(&m3, b), b);
+      cmp(cx, "-[a,b,a,b,b].sum()", "iter/neg-sum5", &(-s5), &rm::negm(&m5), d);
+      let p3: Fp = [ra, rb, ra].into_iter().product();
+      cmp(cx, "-[a,b,a].product()", "iter/neg-product3", &(-p3), &rm::negm(&rm::mulm(&mprod, a)), d);
+    }
     cmp(cx, "[a,b].product()", "iter/product", &[ra, rb].into_iter().product::<Fp>(), &mprod, d);
     cmp(cx, "[&a,&b,&a].product()", "iter/product-ref", &[ra, rb, ra].iter().product::<Fp>(), &rm::mulm(&mprod, a), d);
     cx.eval();
@@ -328,7 +342,7 @@ fn unary_checks(cx: &mut CaseCx, a: &BigUint, ra: &Fp) {
     cmp(cx, "pow_vartime(a,e)", "unary/pow_vartime", &ra.pow_vartime(l), &rm::powm(a, &e), || json!({"a": a.to_string(), "e": e.to_string()}));
   }
   // exponents given as slices LONGER than the field's three limbs (pow / pow_vartime accept any length)
-  for (name, l) in [("2^192", vec![0u64, 0, 0, 1]), ("2^192 + 5", vec![5u64, 0, 0, 1]), ("2^256 + 2^64", vec![0u64, 1, 0, 0, 1]), ("3 with two zero limbs on top", vec![3u64, 0, 0, 0, 0]), ("2^320 - 1", vec![u64::MAX; 5]), ("a single limb 7", vec![7u64]), ("empty", vec![])] {
+  for (name, l) in [("2^127 + 2^64", vec![0u64, 0x8000_0000_0000_0001]), ("limbs with top and bottom bits set", vec![0x8000_0000_0000_0001u64, 0x8000_0000_0000_0001, 1]), ("2^64 + 2^63 + 3", vec![0x8000_0000_0000_0003u64, 1]), ("all ones, two limbs", vec![u64::MAX, u64::MAX]), ("0xF0..0F pattern", vec![0xF0F0_F0F0_F0F0_F0F0u64, 0x0F0F_0F0F_0F0F_0F0F, 1]), ("2^192", vec![0u64, 0, 0, 1]), ("2^192 + 5", vec![5u64, 0, 0, 1]), ("2^256 + 2^64", vec![0u64, 1, 0, 0, 1]), ("3 with two zero limbs on top", vec![3u64, 0, 0, 0, 0]), ("2^320 - 1", vec![u64::MAX; 5]), ("a single limb 7", vec![7u64]), ("empty", vec![])] {
     let mut e = BigUint::zero();
     for (i, w) in l.iter().enumerate() {
       e += BigUint::from(*w) << (64 * i);
